@@ -1,7 +1,7 @@
 (* Entry.v — dispatch from a harness case (an S-expression) to a model function; result as an S-expression. *)
 From Coq Require Import List Arith NArith ZArith Bool Strings.Byte.
 From Coq Require Strings.String.
-From DX Require Import Bytes Sx Res Codec Text Json Sections Header Stream Reader Writer Wire Hunks Dom DomWire.
+From DX Require Import Bytes Sx Res Codec Text Json Sections Header Stream Reader Writer Wire Hunks Dom DomWire DomOps.
 Import ListNotations.
 Import String.StringSyntax.
 Local Open Scope string_scope.
@@ -209,6 +209,57 @@ Definition run_stats (args : list sx) : sx :=
   | _ => bad_case "stats arity"
   end.
 
+(* (dom_ops oracle (op ...)) *)
+Definition sx_attrs (s : sx) : option (list (bytes * wv)) := sx_dopts s.
+Definition sx_path (s : sx) : option path :=
+  match s with
+  | Sym _ => if sym_is s "main" then Some PMain else None
+  | Li [t; a] => if sym_is t "c" then option_map PChange (sx_nat a) else None
+  | Li [t; a; b] => if sym_is t "f" then match sx_nat a, sx_nat b with Some a, Some b => Some (PFile a b) | _, _ => None end else None
+  | _ => None
+  end.
+Definition sx_secsel (s : sx) : option secsel :=
+  if sym_is s "self" then Some SSelf else if sym_is s "pre" then Some SPre
+  else if sym_is s "meta" then Some SMeta else if sym_is s "diff" then Some SDiff else None.
+Definition sx_op (s : sx) : option op :=
+  match s with
+  | Li (t :: args) =>
+      if sym_is t "new" then match args with [a] => option_map ONew (sx_attrs a) | _ => None end
+      else if sym_is t "add_change" then
+        match args with [i; a] => match sx_nat i, sx_attrs a with Some i, Some a => Some (OAddChange i a) | _, _ => None end | _ => None end
+      else if sym_is t "add_file" then
+        match args with [i; c; a] => match sx_nat i, sx_nat c, sx_attrs a with Some i, Some c, Some a => Some (OAddFile i c a) | _, _, _ => None end | _ => None end
+      else if sym_is t "set" then
+        match args with [i; p; Hex n; v] => match sx_nat i, sx_path p, sx_wv v with Some i, Some p, Some v => Some (OSet i p n v) | _, _, _ => None end | _ => None end
+      else if sym_is t "meta_put" then
+        match args with [i; p; k; v] => match sx_nat i, sx_path p, sx_text k, sx_json v with Some i, Some p, Some k, Some v => Some (OMetaPut i p k v) | _, _, _, _ => None end | _ => None end
+      else if sym_is t "opt_put" then
+        match args with [i; p; sel; Hex k; v] => match sx_nat i, sx_path p, sx_secsel sel, sx_wv v with Some i, Some p, Some sel, Some v => Some (OOptPut i p sel k v) | _, _, _, _ => None end | _ => None end
+      else if sym_is t "to_bytes" then match args with [i] => option_map OToBytes (sx_nat i) | _ => None end
+      else if sym_is t "eq" then match args with [i; j] => match sx_nat i, sx_nat j with Some i, Some j => Some (OEq i j) | _, _ => None end | _ => None end
+      else if sym_is t "parse" then match args with [Hex d] => Some (OParse d) | _ => None end
+      else if sym_is t "stats" then match args with [i] => option_map OStats (sx_nat i) | _ => None end
+      else None
+  | _ => None
+  end.
+Definition sx_of_outcome (o : outcome) : sx :=
+  match o with
+  | RUnit => sym "unit"
+  | RBytes b => Hex b
+  | RBool b => sx_of_bool b
+  | RExc e => sx_of_exn e
+  | RBadIndex => sym "bad-index"
+  end.
+Definition run_dom_ops (args : list sx) : sx :=
+  match args with
+  | [o; ops] =>
+      match sx_oracle o, sx_list sx_op ops with
+      | Some o, Some ops => sx_of_list (fun p => Li [sx_of_outcome (fst p); sx_of_list sx_of_tree (snd p)]) (run_ops o [] ops)
+      | _, _ => bad_case "dom_ops args"
+      end
+  | _ => bad_case "dom_ops arity"
+  end.
+
 Definition run_json_dump (args : list sx) : sx :=
   match args with
   | [j] => match sx_json j with Some j => sx_of_res sx_of_bytes (json_dump j) | None => bad_case "json" end
@@ -219,7 +270,7 @@ Definition table : list (String.string * (list sx -> sx)) :=
   [ ("split_lines", run_split_lines); ("codec", run_codec); ("newline_for", run_newline_for); ("guess", run_guess);
     ("read", run_read); ("header", run_header); ("write", run_write); ("write_read", run_write_read); ("json_dump", run_json_dump); ("hunks", run_hunks);
     ("dom_write", run_dom_write); ("dom_read", run_dom_read); ("dom_roundtrip", run_dom_roundtrip);
-    ("dom_reserialise", run_dom_reserialise); ("stats", run_stats) ].
+    ("dom_reserialise", run_dom_reserialise); ("stats", run_stats); ("dom_ops", run_dom_ops) ].
 
 Fixpoint dispatch (t : list (String.string * (list sx -> sx))) (name : bytes) (args : list sx) : sx :=
   match t with
